@@ -203,16 +203,19 @@ def run(c, prog):
     gm, _, _ = tables.simple_map(gfn[0])
     neg_off = None
     pos_ok = False
+    # get_normal_id(position, value): `1 => position`, `-1 => position + K` — the parameter is found by position
+    # (first parameter), not by name
+    pos_name = gfn[0].params[0].get("name") if gfn[0].params else None
     for k, v in gm.items():
-        if k == ("lit", 1) and v[0] == "local" and v[1] == "position":
+        if k == ("lit", 1) and v[0] == "local" and v[1] == pos_name:
             pos_ok = True
         if k == ("lit", -1) and v[0] == "expr":
             e = v[1]
             if e.get("k") == "Binary" and e["op"] == "+":
                 l, r = core.strip(e["l"]), core.strip(e["r"])
-                if l.get("name") == "position" and core.lit_value(r) is not None:
+                if l.get("name") == pos_name and core.lit_value(r) is not None:
                     neg_off = core.lit_value(r)
-                elif r.get("name") == "position" and core.lit_value(l) is not None:
+                elif r.get("name") == pos_name and core.lit_value(l) is not None:
                     neg_off = core.lit_value(l)
     if not pos_ok or neg_off is None:
         raise core.AnchorMissing("get_normal_id: arms `1 => position`, `-1 => position + K` not recognised")
